@@ -61,7 +61,8 @@ add("C07", "other",
 add("C08", "other",
     "Proved: AliasedFactory.from_alias on flat families of ANY size (a root with n direct subclasses, as every shipped family is): an instance of "
     "the last registered subclass carrying the alias - the root only if no subclass does - built with exactly the caller's arguments, ValueError iff "
-    "nobody carries it; alias_factory_subclass_from_arg over all argument shapes (instance / str / mapping with alias, name, both, neither): which constructor "
+    "nobody carries it; syntactic obligations on the shipped class tables (every `aliases` attribute is a set display of string literals - a bare "
+    "string would make membership a substring test -, no alias is carried by two classes of one family); alias_factory_subclass_from_arg over all argument shapes (instance / str / mapping with alias, name, both, neither): which constructor "
     "call is made with which keywords, KeyError when neither key is present, the caller's mapping never mutated. Registry resolution is exhaustive "
     "by enumeration (AST-read class table vs the real from_alias) and shadowing / nested JSON round trips are bounded." + MIX, TB)
 add("C09", "other",
